@@ -188,7 +188,8 @@ def _should_copy_property(
             if behavior == InvalidPropertyBehavior.IGNORE:
                 return False
             if behavior == InvalidPropertyBehavior.ERROR_UNLESS_DEFAULT:
-                if value.strip() == DEFAULT_PROPERTIES[property]:
+                # A key-only property (e.g. `#FAKES;`) has no value: treat it as blank
+                if (value or "").strip() == DEFAULT_PROPERTIES[property]:
                     return False
             raise InvalidPropertyException(
                 f"cannot convert {repr(property)} (value: {repr(value)})"
